@@ -31,7 +31,10 @@ for fn, nm, real in ((1, 'set_field', '_dbus_header_set_field_basic'), (2, 'dele
                  route='hybrid' if fn == 3 else 'stub',
                  tus=[dict(file=HDR, include_as='VERIF_TU', **({'overlay': 'c12_edit.ovl'} if fn == 3 else {}))],
                  harness='harness/c12_edit.c', defines=['VERIF_FN=%d' % fn, 'VERIF_C14=%d' % c14], replace_calls=EDIT_STUBS,
-                 allow_skip_msg=True, timeout=600, expect_s=10,
+                 allow_skip_msg=True, timeout=1500, expect_s=10,
+                 # safety net for changed code: the functions are loop-free (fn 1, 2) / closed by a loop contract (fn 3); a loop added by an
+                 # edit is unwound up to 13 times and then reported through an unwinding assertion instead of running into the timeout
+                 **({'unwind': 13} if fn != 3 else {}),
                  must_have=(['post.C14 edit failure'] if c14 else ['edit success: cache invalidated after the last byte move']) +
                            (['Check invariant after step for loop _dbus_header_remove_unknown_fields'] if fn == 3 else []),
                  functions=[dict(name=real, file=HDR, status='enforced',
